@@ -8,7 +8,10 @@ pub(crate) mod kani_verif {
     /// translate): a deterministic, position-sensitive mixing of the state with the block. What these harnesses check is the
     /// WRAPPER - which bytes of the 32-byte digest it hands out, and that finalize_reset resets - not SHA-256 itself
     /// (sha2 is in the trusted base).
-    pub fn model_compress256(state: &mut [u32; 8], blocks: &[[u8; 64]]) {
+    pub fn model_compress256(
+        state: &mut [u32; 8],
+        blocks: &[digest::generic_array::GenericArray<u8, digest::typenum::U64>],
+    ) {
         let mut b = 0;
         while b < blocks.len() {
             let mut i = 0;
